@@ -3,7 +3,7 @@
 import ast
 
 from ..core.analysis import Analysis, assigned_names, facts
-from ..core.astutil import enclosing_trys, handler_catches
+from ..core.astutil import deref, enclosing_trys, handler_catches
 from ..core.escape import Escape
 from ..core.pyrepo import Repo, calls_in, dotted, norm_stmt
 
@@ -28,6 +28,8 @@ def run(ctx):
         src = asg[rname][0].value
     elif isinstance(last, ast.Return):
         src = last.value
+    if src is not None:
+        src = deref(pf.node, src)
     good = isinstance(src, ast.Call) and dotted(src.func) == "sorted" and src.args \
         and isinstance(src.args[0], ast.Call) and dotted(src.args[0].func) == "_psplatform.pids" \
         and not src.keywords
@@ -171,8 +173,8 @@ def run(ctx):
         l, r = dotted(v.left), dotted(v.right)
         ls = asg.get(l, [None])[0]
         rs = asg.get(r, [None])[0]
-        lt = norm_stmt(ls.value).replace(" ", "") if ls is not None else ""
-        rt = norm_stmt(rs.value).replace(" ", "") if rs is not None else ""
+        lt = norm_stmt(deref(pi.node, ls.value)).replace(" ", "") if ls is not None else ""
+        rt = norm_stmt(deref(pi.node, rs.value)).replace(" ", "") if rs is not None else ""
         return wname in lt and "pids()" in rt
     gl = [s for s in gone_loop if _is_cached_minus_listed(dotted(s.iter))]
     yn = [n for n in cfg.nodes if n.kind == "stmt" and isinstance(n.stmt, ast.Expr)
